@@ -14,30 +14,35 @@ EXTENDS FBRef, Json, IOUtils
 
 CP_K == <<"k">>
 CP_CK == <<"c", "k">>
+KF_NONE == {}
+KF_OPEN == {"KF-hidden-foreign-target"}
 
 Traces == ndJsonDeserialize(IOEnv.TRACE_FILE)
 
-VARIABLES tid, l, s
-tvars == <<tid, l, s>>
+VARIABLES tid, l, s, kf
+tvars == <<tid, l, s, kf>>
 
-TraceInit == tid = 1 /\ l = 1 /\ s = InitState
+TraceInit == tid = 1 /\ l = 1 /\ s = InitState /\ kf = {}
 
 Verdict(kind, clause) ==
-  PrintT(<<"VERDICT", Traces[tid].id, kind, l, clause>>)
+  PrintT(<<"VERDICT", Traces[tid].id, kind, l, clause,
+           <<s.st.q, s.st.inv, s.st.invfound, s.st.reuse, s.st.sfail, s.st.commit, s.st.rollback,
+             s.st.clean, s.st.refuse, s.st.nestedreuse, s.st.failrec>>, kf >>)
 
 TraceNext ==
   /\ tid <= Len(Traces)
   /\ LET evs == Traces[tid].events IN
      IF l > Len(evs) THEN
         /\ Verdict("accepted", "")
-        /\ tid' = tid + 1 /\ l' = 1 /\ s' = InitState
+        /\ tid' = tid + 1 /\ l' = 1 /\ s' = InitState /\ kf' = {}
      ELSE
         LET e == evs[l]
             c == Check(s, e)
         IN IF c # "" THEN
               /\ Verdict("rejected", c)
-              /\ tid' = tid + 1 /\ l' = 1 /\ s' = InitState
-           ELSE tid' = tid /\ l' = l + 1 /\ s' = Apply(s, e)
+              /\ tid' = tid + 1 /\ l' = 1 /\ s' = InitState /\ kf' = {}
+           ELSE /\ tid' = tid /\ l' = l + 1 /\ s' = Apply(s, e)
+                /\ kf' = IF KnownFinding(s, e) = "" THEN kf ELSE kf \cup {KnownFinding(s, e)}
 
 TraceSpec == TraceInit /\ [][TraceNext]_tvars
 
